@@ -86,6 +86,19 @@ def run(ctx):
         seed = rng.randrange(10 ** 9)
         seed -= seed % 3 if kind == "one point (read)" else 0
         jobs.append({"case": case, "seed": seed, "length": 3, "start": "numpy", "allow_tf": False, "plan": None if kind == "declared 0x0" else (["focus"] if kind.startswith("one") else ["focus", "flip"]), "planned_case": kind})
+    # planned, every run: a non-finite coordinate (+inf, NaN) at ONE observed point — such a pose is well-formed (missing is decided by the confidences), and
+    # stays so through the normalisers (an arithmetic that masks non-finite results would mark an observed coordinate missing)
+    for bits in (0x7F800000, 0x7FC00000, 0xFF800000):
+        case = c09.gen_case(rng)
+        while case["body"]["frames"] < 2 or case["body"]["points"] < 3:
+            case = c09.gen_case(rng)
+        b = case["body"]; F, P, N, D = b["frames"], b["people"], b["points"], b["dims"]
+        conf = pc.bits_to_f32(b["conf"], (F, P, N)).copy(); conf[:] = 1.0
+        b["conf"] = pc.f32_to_bits(conf)
+        cell = (rng.randrange(F) * P * N + rng.randrange(P) * N + rng.randrange(N)) * D + rng.randrange(D)
+        b["data"][cell] = bits
+        jobs.append({"case": case, "seed": rng.randrange(10 ** 9), "length": 3, "start": "numpy", "allow_tf": False, "plan": rng.choice([["normalize"], ["normalize", "flip"], ["normalize_distribution"]]),
+                     "planned_case": "non-finite coordinate", "no_model": True})
     local = [j for j in jobs if not j["allow_tf"]]
     child = [j for j in jobs if j["allow_tf"]]
     results = [(j, seqexec.run_sequence(j["case"], j["seed"], j["length"], j["start"], False, j.get("plan"))) for j in local]
@@ -124,7 +137,7 @@ def run(ctx):
             elif steps and "error" not in steps[-1] and steps[-1].get("backend") == "numpy":
                 ctx.count("roundtrips_ok")
         # ---- the Lean model on the modelled prefix (numpy start only)
-        if j["start"] == "numpy":
+        if j["start"] == "numpy" and not j.get("no_model"):
             mops, names = [], [[pc.unhx(c["name"]), [pc.unhx(p) for p in c["points"]]] for c in j["case"]["header"]["components"]]
             F, fps = j["case"]["body"]["frames"], 25.0
             for s in steps[1:]:
